@@ -1,0 +1,13 @@
+//go:build verif
+
+package miner
+
+// Verification hooks of the block generation / verification family (build tag `verif` only; add-only).
+
+import "0chain.net/chaincore/transaction"
+
+// VerifBlockGenIsBuildIn tells whether block verification treats the transaction as a built-in one
+// (the classification ValidateTransactions uses for its duplicate check).
+func (mc *Chain) VerifBlockGenIsBuildIn(txn *transaction.Transaction) bool {
+	return mc.isBuildInTxn(txn)
+}
